@@ -29,7 +29,7 @@ ASSUMPTIONS = [
     "domain lists are well-formed (an even number of comma separated elements)",
 ]
 BOUNDS = {
-    "quick": {"transform_depth": 3, "recover_depth": 4, "execute_depth": 2, "gargle_entries": 3, "bg": "hamming2"},
+    "quick": {"transform_depth": 3, "recover_depth": 5, "execute_depth": 2, "gargle_entries": 4, "bg": "hamming2"},
     "thorough": {"transform_depth": 4, "recover_depth": 5, "execute_depth": 3, "gargle_entries": 4, "bg": "all"},
 }
 
